@@ -30,7 +30,7 @@ AREA = "Wallet"
 INVS = ["Atomic", "OneCommit", "OkMeansComplete", "FaultMeansErrOrComplete", "NoDanglingTx", "Snapshot",
         "CrashAtomic", "RetryConverges", "Durable"]
 SPEC_MUTANTS = ["StmtOutsideTxn", "CommitOnErr", "SwallowError", "TwoTxns", "ReaderNoTxn"]
-SHARDS = 8
+SHARDS = {"quick": 6, "thorough": 8}     # driver processes (and parallel TLC trace validations)
 
 
 # ------------------------------------------------------------------------------------------------
@@ -221,7 +221,7 @@ def validate_all(ctx, d, traces, seed, tag="t"):
             except Exception as e:  # noqa: BLE001
                 results[i] = e
 
-    th = [threading.Thread(target=work) for _ in range(min(8, len(files)))]
+    th = [threading.Thread(target=work) for _ in range(min(SHARDS[ctx.tier], len(files)))]
     for t in th:
         t.start()
     for t in th:
@@ -248,7 +248,7 @@ def run(ctx):
     lib.sany(os.path.join(d, "Trace_TxnAtomic.tla"))
     model_check(ctx, d)
 
-    traces = drive(ctx, bindir, "quick" if ctx.quick() else "thorough", ctx.seed, SHARDS)
+    traces = drive(ctx, bindir, "quick" if ctx.quick() else "thorough", ctx.seed, SHARDS[ctx.tier])
     tot = {"executions": 0, "faults_fired": 0, "faults_with_pending_rows": 0, "distinct_nontrivial": 0, "panics": 0,
            "events": 0, "reader_interleavings": 0, "crash_images": 0, "err_after_commit": 0, "fault_absorbed_ok": 0,
            "skipped_positions": 0}
